@@ -9,7 +9,7 @@
    else as a duplicate; nothing is ever overwritten or removed (first definition wins).
    Only statements and [exact]. *)
 From MD Require Import Base.Py Base.Str Base.Opt Model.Token Model.Utils Model.Url Model.StateBlock Model.Block Model.Inline Model.Pipeline
-     Lemmas.BlockLemmas Lemmas.EnvLemmas Lemmas.PipelineUrls.
+     Lemmas.BlockLemmas Lemmas.EnvLemmas Lemmas.PipelineUrls Lemmas.CollapseWs.
 
 Theorem C16_reference_env :
   forall cfg rf cf tm st startLine endLine silent b st',
@@ -50,3 +50,36 @@ Theorem C16_parse_env_extends :
     parse cfg reformat casefold linktext src env = Ok (ts, env') -> env_ext reformat env env'.
 Proof. exact parse_env_extends. Qed.
 Print Assumptions C16_parse_env_extends.
+
+(* ---- labels match with internal white space collapsed ----
+   normalizeReference is  casefold(re.sub(r"\s+", " ", label.strip())).  The regular expression,
+   executed by the model's backtracking matcher on EVERY string, computes the direct function
+   [collapse]: each maximal run of white space becomes one space, everything else is copied. *)
+Theorem C16_collapse_is_runs_to_one_space : forall s, collapse_ws s = collapse s.
+Proof. exact collapse_ws_is_collapse. Qed.
+Print Assumptions C16_collapse_is_runs_to_one_space.
+
+(* so two spellings of a label that differ only in how one internal run of white space is
+   written (any non-empty runs, of any characters of \s, any length) have the same key ... *)
+Theorem C16_label_internal_whitespace :
+  forall casefold c a w1 w2 b d,
+    is_py_space c = false -> is_py_space d = false ->
+    w1 <> [] -> w2 <> [] -> forallb wsb w1 = true -> forallb wsb w2 = true ->
+    normalize_reference casefold (c :: a ++ w1 ++ b ++ [d]) = normalize_reference casefold (c :: a ++ w2 ++ b ++ [d]).
+Proof. exact normalize_reference_respelling. Qed.
+Print Assumptions C16_label_internal_whitespace.
+
+(* ... and white space around the label does not matter at all *)
+Theorem C16_label_outer_whitespace :
+  forall casefold l s r,
+    forallb is_py_space l = true -> forallb is_py_space r = true ->
+    (match s with [] => true | c :: _ => negb (is_py_space c) end) = true ->
+    (match rev s with [] => true | c :: _ => negb (is_py_space c) end) = true ->
+    normalize_reference casefold (l ++ s ++ r) = normalize_reference casefold s.
+Proof. exact normalize_reference_outer. Qed.
+Print Assumptions C16_label_outer_whitespace.
+
+Example C16_label_whitespace_example :
+  collapse_ws [102; 111; 111; 32; 9; 10; 98; 97; 114] = [102; 111; 111; 32; 98; 97; 114]
+  /\ forallb wsb [32; 9; 10] = true /\ is_py_space 102 = false.
+Proof. vm_compute. repeat split. Qed.
